@@ -79,13 +79,36 @@ structure TInv (p : P) : Prop where
   schemaCats : ∀ sc ∈ p.schemas, sc.cat < p.cats.length
   statics : MapBelow p.staticTypes p.schemas.length
   maps : ∀ pr ∈ p.processes, ∀ m ∈ pr.maps, m.lib < p.libs.all.length
-  counters : ∀ c ∈ p.counters, c.process < p.processes.length
+  /-- a counter's process exists and the pid recorded in the counter (counters.rs stores the pid string
+  at creation) is that process's pid -/
+  counters : ∀ c ∈ p.counters, ∃ pr, p.processes[c.process]? = some pr ∧ pr.pid = c.pid
   visible : AllBelow p.visible p.threads.length
   selected : AllBelow p.selected p.threads.length
+  kmaps : ∀ m ∈ p.kmaps, m.lib < p.libs.all.length
+
+theorem TInv.counters_lt {p : P} (h : TInv p) (c : Counter) (hc : c ∈ p.counters) :
+    c.process < p.processes.length := by
+  obtain ⟨pr, hpr, _⟩ := h.counters c hc
+  exact (List.getElem?_eq_some_iff.mp hpr).1
+
+/-- replacing a process by one with the same pid keeps the counter clause -/
+theorem counters_set {procs : List Process} {cs : List Counter} {i : Nat} {old new : Process}
+    (h : ∀ c ∈ cs, ∃ pr, procs[c.process]? = some pr ∧ pr.pid = c.pid)
+    (ho : procs[i]? = some old) (hp : new.pid = old.pid) :
+    ∀ c ∈ cs, ∃ pr, (procs.set i new)[c.process]? = some pr ∧ pr.pid = c.pid := by
+  intro c hc
+  obtain ⟨pr, hpr, hpid⟩ := h c hc
+  by_cases he : i = c.process
+  · subst he
+    rw [ho] at hpr
+    cases hpr
+    exact ⟨new, by simp [List.getElem?_set, (List.getElem?_eq_some_iff.mp ho).1], hp.trans hpid⟩
+  · exact ⟨pr, by rw [List.getElem?_set_ne he]; exact hpr, hpid⟩
 
 theorem TInv.init : TInv P.init where
-  libs := ⟨fun _ hx => (nomatch hx), fun _ hx => (nomatch hx)⟩
-  gstr := fun _ hx => nomatch hx
+  libs := ⟨fun _ hx => (nomatch hx), fun _ hx => (nomatch hx), fun _ hx => (nomatch hx),
+    by intro i h hi; simp [P.init] at hi⟩
+  gstr := ⟨fun _ hx => (nomatch hx), fun _ hx => (nomatch hx)⟩
   threads := fun _ hx => nomatch hx
   subsPos := by
     intro c hc
@@ -99,6 +122,7 @@ theorem TInv.init : TInv P.init where
   counters := fun _ hx => nomatch hx
   visible := fun _ hx => nomatch hx
   selected := fun _ hx => nomatch hx
+  kmaps := fun _ hx => nomatch hx
 
 theorem TInv.thread {p : P} (h : TInv p) {t : Nat} {th : Thread} (ht : p.threads[t]? = some th) :
     ThreadInv p.gb th := h.threads th (List.mem_of_getElem? ht)
@@ -130,7 +154,7 @@ theorem List.mem_modify {α : Type} (l : List α) (i : Nat) (f : α → α) (x :
 /-- replacing one thread by a thread that satisfies the thread invariant -/
 theorem TInv.setThread {p : P} (h : TInv p) (t : Nat) (th' : Thread) (h' : ThreadInv p.gb th') :
     TInv (p.setThread t th') := by
-  refine ⟨h.libs, h.gstr, ?_, h.subsPos, h.catsPos, h.schemaCats, h.statics, h.maps, h.counters, ?_, ?_⟩
+  refine ⟨h.libs, h.gstr, ?_, h.subsPos, h.catsPos, h.schemaCats, h.statics, h.maps, h.counters, ?_, ?_, h.kmaps⟩
   · intro x hx
     rcases List.mem_modify _ _ _ _ hx with hx | ⟨y, hy, rfl⟩
     · exact h.threads x hx
@@ -145,8 +169,9 @@ theorem TInv.grow {p p' : P} (h : TInv p) (hl : LibsInv p'.libs) (hall : p.libs.
     (hsub : ∀ c, c < p'.cats.length → 0 < subCount p'.cats c)
     (hsc : ∀ sc ∈ p'.schemas, sc.cat < p'.cats.length) (hst : MapBelow p'.staticTypes p'.schemas.length)
     (hpr : p'.processes = p.processes) (hc : p'.counters = p.counters) (hv : p'.visible = p.visible)
-    (hs : p'.selected = p.selected) : TInv p' := by
-  refine ⟨hl, hg, ?_, hsub, Nat.lt_of_lt_of_le h.catsPos hle.2.2.1, hsc, hst, ?_, ?_, ?_, ?_⟩
+    (hs : p'.selected = p.selected) (hkm : p'.kmaps = p.kmaps := by rfl) : TInv p' := by
+  refine ⟨hl, hg, ?_, hsub, Nat.lt_of_lt_of_le h.catsPos hle.2.2.1, hsc, hst, ?_, ?_, ?_, ?_,
+    fun m hm => Nat.lt_of_lt_of_le (h.kmaps m (hkm ▸ hm)) hall⟩
   · intro t ht; rw [hth] at ht; exact (h.threads t ht).mono hle
   · intro pr hpr' m hm; rw [hpr] at hpr'; exact Nat.lt_of_lt_of_le (h.maps pr hpr' m hm) hall
   · rw [hc, hpr]; exact h.counters
